@@ -22,6 +22,7 @@ def scan_prop(pid, setn, extra_lib):
         'corr': ['Corr/Set%d' % setn], 'needs_corr': ['Syn/Set%d' % setn, 'ExtI/Scan'],
         'cex_ext': 'Cex/%s_ext' % pid, 'cex_syn': 'Cex/%s_syn' % pid,
         'replay_kind': 'bytes%d' % setn,
+        'info': ['Spec/ReadmeCheck'],
     }
 
 
@@ -222,6 +223,7 @@ PROPS = {
         'syn': ['Props/C13', 'Props/E2E'], 'needs_syn': ['Syn/Set1', 'Syn/Set2', 'Check/C13', 'Seq'],
         'ext': ['Props/C13_ext'], 'needs_ext': ['ExtI/Scan', 'Check/C13'],
         'corr': ['Corr/Set1', 'Corr/Set2'], 'needs_corr': ['Syn/Set1', 'Syn/Set2', 'ExtI/Scan'],
+        'info': ['Spec/ReadmeCheck'],
         'cex_ext': 'Cex/C13_ext', 'cex_syn': 'Cex/C13_syn',
         'replay_kind': 'c13',
         'bonus': ['Props/E2E_full'],
